@@ -26,16 +26,16 @@ OBLIGATIONS += [spl(5, ["quick", "thorough"]), spl(8, ["thorough"], 1800)]
 
 def rdhdr(k, full, tiers, timeout=600):
     sizes = sorted(set([1, 2, 3, 101] + [a + b + 2 for a in (0, 1, 2, 100) for b in (1, 2, 155)] + [24]))
-    return dict(name="tar_read_header_k%d_full%d" % (k, full), harness="harness/C07_readheader.c", sources=["lib/tar/src/number.c", "lib/tar/src/cleanup.c"],
+    return dict(name="tar_read_header_k%d_full%d" % (k, full), harness="harness/C07_readheader.c", sources=["lib/tar/src/cleanup.c"],
         stubs=["stubs/vp_ctype.c", "stubs/vp_sysmacros.c"], included_sources=["lib/tar/src/read_header.c"], incdirs=["lib/tar/src", "."],
         pre_include=["stubs/vp_alloc_sizes.h"], defines=dict(K=k, FULL=full, VP_ALLOC_SIZES=",".join(str(x) for x in sizes)), unwind=26,
         unwindset={"fill_str.0": 156, "fill_num.0": 13, "memset.0": 513, "strndup.0": 102, "strndup.1": 101, "strnlen.0": 160, "memcmp.0": 10, "vp_malloc.0": len(sizes) + 2, "vp_calloc.0": len(sizes) + 2,
                    "read_header.0": k + 2, "free_sparse_list.0": 3, "strlen.0": 260, "is_memory_zero.0": 520, "memcpy.0": 160},
         leak=True, tiers=tiers, timeout=timeout, fp_map={"get_filename": ["fname"]}, reach=["entry", "error", "eof"],
-        functions=["read_header, decode_header, check_version, is_checksum_valid (lib/tar/src/read_header.c)", "read_number (number.c)", "clear_header, free_sparse_list (cleanup.c)"],
+        functions=["read_header, decode_header, check_version, is_checksum_valid (lib/tar/src/read_header.c)", "clear_header, free_sparse_list (cleanup.c)"],
         bound="a stream of up to %d records; numeric fields, magic, version, checksum and type flag bytes all symbolic; name/linkname/prefix %s; "
               "any read may fail or come back short; PAX / long-name / sparse sub-parsers are contract stubs" % (k, {0: "short (<= 2 symbolic bytes)", 7: "completely filled (no terminator)", 1: "name filled, others short", 4: "prefix filled, others short"}[full]))
-OBLIGATIONS += [rdhdr(1, 0, ["quick", "thorough"]), rdhdr(1, 7, ["quick", "thorough"]), rdhdr(1, 1, ["thorough"]), rdhdr(1, 4, ["thorough"]), rdhdr(2, 0, ["thorough"], 1200)]
+OBLIGATIONS += [rdhdr(1, 0, ["quick", "thorough"]), rdhdr(1, 7, ["thorough"]), rdhdr(1, 1, ["thorough"]), rdhdr(1, 4, ["thorough"]), rdhdr(2, 0, ["thorough"], 1200)]
 ASSUMPTIONS = ["ctype classification = C locale (stubs/vp_ctype.c)", "path lookup replaced by a symbolic graph (superset of all archives / pack files)"]
 OUTSIDE = ["zlib/xz/zstd/bzip2 on corrupt streams", "glob.c against a real directory"]
 META = dict(
